@@ -20,7 +20,8 @@ pool dump, 7dc29266 verified account) the statements also cover: the chain id a 
 configured with for the block's number — `header_version_check_needed` shows the check of bd63ef2d is what makes it
 true), the pool as trust anchor (`pool_invariant` over every history of a pool incl. the start-up dump,
 `shortcut_sound`: the block-level short-cut resolved against such a pool, `load_verify_needed`), and the node's own
-blocks (`produced_block_authorised`, `produced_nonces_trace`: the block factory's gathering from such a pool).
+blocks (`produced_block_authorised`, `produced_nonces_trace`: the block factory's gathering from such a pool; `node_nonces_seq`,
+`node_chain_id_bound`, `node_no_hash_twice`: a node's main chain as any mix of received and own blocks).
 
 A rejected transaction / block yields no new world at all (`Except.error`): "changes state only if" is the
 statement that an `.ok` result implies the gate conditions, which is what the theorems below say.
@@ -609,6 +610,53 @@ theorem produced_nonces_trace (env : Env) (body : Body) (cid : Bytes) (W : World
     Trace W.nonce (produceBlock H env body cid W cands).2 (produceBlock H env body cid W cands).1.nonce :=
   (gatherTxs_ok H (env := env) (body := body) (cid := cid) (cands := cands) (W := W)).1
 
+/-! ### 10b. A node's main chain: any mix of received and own blocks -/
+
+/-- **node_nonces_seq.** Along the main chain of a node — every block either received (header check, execution, signature
+verdict) or produced by the node itself from its pool — the nonces account `a` executed are `n+1, …, n+k` (from genesis:
+1, 2, 3, …) and its state nonce afterwards is `n+k`. -/
+theorem node_nonces_seq (env : Env) (body : Body) (hc : HdrCid → Bytes) (cfgVer : Nat → Nat) (i : Nat) (best : HdrCid)
+    (W W' : World) (steps : List NodeStep) (log : List LogEntry)
+    (h : runNode H Verify env body hc cfgVer i best W steps = some (W', log))
+    (a : Bytes) (hb : W.nonce a + log.length < 2 ^ 64) :
+    noncesOf a log = List.range' (W.nonce a + 1) (noncesOf a log).length ∧
+    W'.nonce a = W.nonce a + (noncesOf a log).length :=
+  trace_seq (runNode_ok H Verify h).1 a hb
+
+/-- **node_chain_id_bound.** … and every executed transaction, in received and own blocks alike, is bound to the hash of
+this chain's identifier in the version the node is configured with for some block number of that chain. -/
+theorem node_chain_id_bound (env : Env) (body : Body) (hc : HdrCid → Bytes) (cfgVer : Nat → Nat) (i : Nat) (best : HdrCid)
+    (W W' : World) (steps : List NodeStep) (log : List LogEntry)
+    (h : runNode H Verify env body hc cfgVer i best W steps = some (W', log)) :
+    ∀ e ∈ log, ∃ j, i ≤ j ∧ j < i + steps.length ∧ e.tx.chainIdHash = hc ⟨cfgVer j, best.rest⟩ ∧
+      e.tx.hash = H (hashInput e.tx) := by
+  intro e he
+  obtain ⟨j, hlo, hhi, hv⟩ := (runNode_ok H Verify h).2 e he
+  exact ⟨j, hlo, hhi, (chainid_bound H _ _ _ _ hv).1, (chainid_bound H _ _ _ _ hv).2⟩
+
+/-- **node_no_hash_twice.** … and the same carried hash at two positions of the node's log means an explicit collision of
+the two digest inputs or the same bytes executed for two different accounts (name senders only, cf. `no_hash_twice_addr`). -/
+theorem node_no_hash_twice (env : Env) (body : Body) (hc : HdrCid → Bytes) (cfgVer : Nat → Nat) (k : Nat) (best : HdrCid)
+    (W W' : World) (steps : List NodeStep) (log : List LogEntry)
+    (h : runNode H Verify env body hc cfgVer k best W steps = some (W', log))
+    (hb : ∀ a, W.nonce a + log.length < 2 ^ 64)
+    (i j : Nat) (hij : i < j) (hj : j < log.length)
+    (hh : (log[i]'(by omega)).tx.hash = (log[j]'hj).tx.hash) :
+    Collision H (hashInput (log[i]'(by omega)).tx) (hashInput (log[j]'hj).tx) ∨
+    (hashInput (log[i]'(by omega)).tx = hashInput (log[j]'hj).tx ∧ (log[i]'(by omega)).account ≠ (log[j]'hj).account) := by
+  obtain ⟨htr, _⟩ := runNode_ok H Verify h
+  have hi : i < log.length := by omega
+  obtain ⟨_, _, _, _, h1⟩ := node_chain_id_bound H Verify env body hc cfgVer k best W W' steps log h _ (List.getElem_mem hi)
+  obtain ⟨_, _, _, _, h2⟩ := node_chain_id_bound H Verify env body hc cfgVer k best W W' steps log h _ (List.getElem_mem hj)
+  by_cases heq : hashInput (log[i]'hi).tx = hashInput (log[j]'hj).tx
+  · right
+    refine ⟨heq, ?_⟩
+    intro hacc
+    have hn := nonce_of_hashInput heq (trace_nonce_lt htr _ (List.getElem_mem hi)) (trace_nonce_lt htr _ (List.getElem_mem hj))
+    exact trace_no_repeat htr hb i j hij hj hacc hn
+  · left
+    exact ⟨heq, by rw [← h1, ← h2, hh]⟩
+
 /-! ### 11. Non-vacuity: a concrete branch (tests on sample values, identity hash, ideal signatures) -/
 
 -- evaluating the model on sample values by `decide` needs a deeper elaborator recursion limit (not a proof device)
@@ -723,6 +771,12 @@ theorem verified_account_needed :
     ((produceBlock id envT stdBody cid0 wNB [⟨xfer [110] kA kA 1 5, kA⟩, ⟨xfer [110] kA kA 1 5, kA⟩]).2 = []) ∧
     (executeTx id envT stdBody cid0 wNB [] (xfer [110] kA kA 1 5)).toOption.map (fun r => (r.2.account, r.1.nonce kB)) = some (kB, 1) := by
   decide
+
+/-- A node's chain mixing a received block and an own block (test): the hypotheses of the `node_*` theorems are satisfiable. -/
+example : (runNode id idealVerify envT stdBody hcT (fun _ => 5) 1 gT w0
+    [.recv ⟨5, [7]⟩ [xferC (hcT ⟨5, [7]⟩) kA kB kA 1 5] false (fun _ => false),
+     .own [⟨xferC (hcT ⟨5, [7]⟩) kA kB kA 2 5, kA⟩, ⟨xferC (hcT ⟨5, [7]⟩) kB kA kB 1 7, kB⟩]]).map
+    (fun r => (noncesOf kA r.2, noncesOf kB r.2, r.1.nonce kA)) = some ([1, 2], [1], 2) := by decide
 
 /-- … and with the name still A's the factory includes it (the hypotheses of `produced_block_authorised` are satisfiable). -/
 example : ((produceBlock id envT stdBody cid0 wN [⟨xfer [110] kB kA 1 5, kA⟩, ⟨xfer kB kA kB 1 7, kB⟩]).2.map
